@@ -47,16 +47,28 @@ theorem fmod_eq_fres {A x : ℝ} (hA : 0 < A) (hx : 0 ≤ x) : RFun.fmod x A = f
   obtain ⟨k, e⟩ := fmod_sub_int x A
   exact (fres_unique hA h0 h1 k e).symm
 
+/-- `f64.modulus` over ℝ for `d > 0`: `r = x % d`, then `r + d` when `r < 0` (the inner
+    `s == d` guard of the source is dead over ℝ: `r ≠ 0` in that branch), else `r`. -/
 theorem modulus_canon (x d : ℝ) (hd : 0 < d) :
     0 ≤ f64.modulus x d ∧ f64.modulus x d < d ∧ ∃ k : ℤ, x - f64.modulus x d = d * k := by
   unfold f64.modulus
   obtain ⟨h1, h2⟩ := fmod_bounds x d hd
-  obtain ⟨h3, h4⟩ := fmod_floor_pos (RFun.fmod x d + d) d hd (by linarith)
   obtain ⟨k1, e1⟩ := fmod_sub_int x d
-  obtain ⟨k2, e2⟩ := fmod_sub_int (RFun.fmod x d + d) d
-  refine ⟨h3, h4, k1 + k2 - 1, ?_⟩
-  push_cast
-  linarith
+  have z : (0.0 : ℝ) = 0 := by norm_num
+  simp only [z, real_beq]
+  split_ifs with hc hs
+  · exfalso
+    rcases hc with ⟨h, _⟩ | ⟨_, h⟩ <;> linarith
+  · have hr : RFun.fmod x d < 0 := by
+      rcases hc with ⟨h, _⟩ | ⟨_, h⟩
+      · exact h
+      · linarith
+    refine ⟨by linarith, by linarith, k1 - 1, ?_⟩
+    push_cast; linarith
+  · have hr : 0 ≤ RFun.fmod x d := by
+      by_contra h
+      exact hc (Or.inl ⟨not_le.mp h, hd⟩)
+    exact ⟨hr, h2, k1, e1⟩
 
 /-- `x.modulus(A)` for `A > 0` is the floored residue, for every `x` -/
 theorem modulus_eq_fres {A : ℝ} (hA : 0 < A) (x : ℝ) : f64.modulus x A = fres A x := by
